@@ -75,6 +75,14 @@ Example C12_windows_example :
   /\ wprefix_grammar [92;92;115;92;104;92;100] = Some (UNC [115] [104], [92;100])
   /\ w_set_file_name [92;92;115;92;104;92;100;92;102;46;116] [103] = [92;92;115;92;104;92;100;92;103].
 Proof. vm_compute. repeat split. Qed.
+(* ... with a parent that is a bare drive (C:name): the name is written right after the drive *)
+Theorem C12_windows_replace_bare_drive : forall (l m n rr : list N) (d : N),
+  w_file_name l = Some m -> w_parent l = Some rr -> rr = [d; 58] -> s_alpha d = true ->
+  noprefix n = true -> gn (wsep true) n ->
+  w_set_file_name l n = rr ++ n /\
+  wspec (w_set_file_name l n) = removelast (wspec l) ++ [WC (Normal n)].
+Proof. exact w_set_file_name_bare_drive. Qed.
+Print Assumptions C12_windows_replace_bare_drive.
 (* ... and with a parent that carries a verbatim prefix followed by a root (WinVerbJoin.v) *)
 Theorem C12_windows_replace_verbatim : forall (l m n rr : list N) (k : wprefix) (r : list N),
   w_file_name l = Some m -> w_parent l = Some rr ->
@@ -92,7 +100,7 @@ Theorem C12_windows_replace_file_name_parent : forall l l' m : list N,
   (forall r r', w_parent l = Some r -> w_parent l' = Some r' -> wspec r' = wspec r).
 Proof. exact w_replaced_last. Qed.
 Print Assumptions C12_windows_replace_file_name_parent.
-(* C12_windows_replace_partial: for a parent that is a bare prefix, or the verbatim prefix named "UNC", the
+(* C12_windows_replace_partial: for a parent that is a bare verbatim prefix, or the verbatim prefix named "UNC", the
    Windows replacement is decided by oracle_c12 on every explored (path, name) pair. *)
 
 Example C12_example : u_file_stem [47;97;46;116;97;114;46;103;122;47] = Some [97;46;116;97;114]
